@@ -3,6 +3,7 @@ CONSTANTS
   K = 2
   Kinds = {"commit"}
   Emit = FALSE
+  RepLevel = 2
   Bug = "simple_drops_tz"
 INVARIANTS InvCommit
 CHECK_DEADLOCK FALSE
